@@ -178,7 +178,7 @@ def oracle(ref_raw, mtu, sent):
     frags = []
     for (idx, raw) in enumerate(sent):
         if len(raw) > mtu:
-            bad.append(('oversize', 'transmitted bundle #%d has %d octets on a route with MTU %d' % (idx, len(raw), mtu)))
+            bad.append(('oversize', 'transmitted bundle #%d of %d has %d octets on a route with MTU %d' % (idx, len(sent), len(raw), mtu)))
         vw = view(raw)
         if not vw['ok']:
             bad.append(('undecodable', 'transmitted bundle #%d: %s' % (idx, vw['error'])))
@@ -186,8 +186,14 @@ def oracle(ref_raw, mtu, sent):
         if not vw['crc_ok']:
             bad.append(('bad-crc', 'transmitted bundle #%d has an invalid CRC' % idx))
         if vw['frag'] is None:
-            bad.append(('not-a-fragment', 'transmitted bundle #%d (%d octets) lacks the fragment flag although the bundle had to be split'
-                        % (idx, len(raw))))
+            if raw == ref_raw:
+                bad.append(('original-sent-oversized', 'the unfragmented bundle itself (%d octets) was transmitted on a route with MTU %d '
+                            'although it may be fragmented' % (len(raw), mtu)))
+            else:
+                bad.append(('altered-original-sent', 'transmitted bundle #%d (%d octets, MTU %d) is neither the original (%d octets) nor a fragment; '
+                            'payload block data: %s' % (idx, len(raw), mtu, len(ref_raw),
+                                                        [('%d octets' % len(blk[4])) if isinstance(blk[4], bytes) else repr(blk[4])
+                                                         for blk in vw['blocks'] if blk[0] == 1])))
             continue
         if vw['ident'] != ref['ident']:
             bad.append(('identity', 'fragment #%d primary %r differs from the original %r' % (idx, vw['ident'], ref['ident'])))
@@ -207,6 +213,9 @@ def oracle(ref_raw, mtu, sent):
             bad.append(('payload-block', 'fragment #%d has %d payload blocks / payload block not last' % (idx, len(pblk))))
             continue
         piece = pblk[0][4]
+        if not isinstance(piece, bytes):
+            bad.append(('payload-not-bstr', 'fragment #%d payload block data is %r' % (idx, piece)))
+            continue
         if total != len(payload):
             bad.append(('total-length', 'fragment #%d total length %d, payload has %d octets' % (idx, total, len(payload))))
         if off != pos:
@@ -766,7 +775,7 @@ def main():
         for raw in got['tx'][:6]:
             vw = view(raw)
             if vw.get('ok'):
-                print('   flags %#x frag %s blocks %s' % (vw['flags'], vw['frag'], [(b[0], b[1], b[2], len(b[4])) for b in vw['blocks']]))
+                print('   flags %#x frag %s blocks %s' % (vw['flags'], vw['frag'], [(b[0], b[1], b[2], len(b[4]) if isinstance(b[4], bytes) else b[4]) for b in vw['blocks']]))
         (corr, detail, _nfail) = run_cases([case], 'replay')
         chk.obligation('correspondence:replayed-case', corr, detail)
         chk.finish(rule='replay of exactly one stored case through the real agent, the model and the oracle', assumptions=ASSUMPTIONS)
